@@ -194,7 +194,7 @@ pub fn gen_cfg(id: &str, tier: Tier, variant: u64) -> GenCfg {
         }
         // objects also stop existing through try_unwrap / make_mut: a quarter of
         // the C08 workers include the handle-consuming ops
-        "C04" | "C08" if variant % 4 == 3 => {
+        "C04" | "C06" | "C08" if variant % 4 == 3 => {
             let mut g = GenCfg::new(Mode::Consume, ops);
             g.weights.consume = 2;
             g
@@ -216,6 +216,13 @@ pub fn gen_cfg(id: &str, tier: Tier, variant: u64) -> GenCfg {
         "C14" if variant % 4 == 3 => {
             let mut g = GenCfg::new(Mode::Consume, ops);
             g.weights.consume = 2;
+            g
+        }
+        // a teardown can also be entered through make_mut / decrement_strong_count
+        "C11" | "C10" if variant % 4 == 3 => {
+            let mut g = GenCfg::new(Mode::Consume, ops);
+            g.weights.consume = 2;
+            g.weights.unique_root = 3;
             g
         }
         "C13" => GenCfg::new(Mode::Elide, ops),
